@@ -90,6 +90,17 @@ check("C17",
       "model-based property testing of generated generator bodies and consumer call sequences",
       "DESIGN.md 5/C17")
 
+check("C09",
+      "The finite matrix decorator {asynq, asynq pure, async_proxy, asynq+sync_fn, async_proxy+sync_fn, make_async_decorator, deduplicate, aretry, alru_cache, acached_per_instance} x binding {function, via instance, via class, via subclass instance, classmethod, staticmethod} x signature {(x), (x, y=10), (x, *, z=20), (x, y=10, *, z=20)} x body {plain, generator with child yield, batch-blocking, raising} is built from generated source and enumerated exhaustively (every cell, two spellings), and Hypothesis additionally draws cells with generated argument values and positional/keyword/default spellings. Oracle: the undecorated body applied to the explicitly bound receiver and normalised arguments; sync call, .asynq().value(), yield from a task, async_call (both forms), get_async_fn(f)(...), get_async_or_sync_fn(f)(...) must all equal it (with sync_fn the sync call equals sync_fn's outcome); is_async_fn / is_pure_async_fn / has_async_fn must equal the cell's ground truth. One open known finding (F1, KNOWN_FINDINGS.txt).",
+      "Trusted: the generated source templates and the expected-outcome formula in harness/props/c09.py. Function-style wrappers are exercised on functions and instance methods only.",
+      "exhaustive enumeration of a finite calling-convention matrix + property-based testing of argument spellings, differential against direct evaluation of the body",
+      "DESIGN.md 5/C09")
+check("C15",
+      "Batch-free generated programs (trees of tasks, constant futures, None, functions with an explicit asyncio_fn, nested/empty tuple-list-dict structures, raises and try/except at any level), entered through a function, a bound method or an async_proxy: the same generated body is run by fn() under the asynq scheduler and by a driver coroutine awaiting fn.asyncio() under asyncio.run; both outcomes and every task's transcript must equal the sequential reference (a plain synchronous call of an @asynq() function inside a body must succeed under asynq and raise RuntimeError under asyncio); a monitor asserts that every task yielded alongside has finished when a failure is delivered at a yield; is_asyncio_mode() must be off before and after (also on failure), on inside bodies under asyncio and off under asynq.",
+      "Trusted: reference interpreter; the driver coroutine observing the contextvar in the same context. ErrorFuture / lazy Future / batch items / result() are outside the property's stated domain and not generated.",
+      "differential property-based testing: one generated body under two engines (asynq scheduler vs asyncio event loop) and a sequential reference",
+      "DESIGN.md 5/C15")
+
 for pid in ["C%02d" % i for i in range(1, 21)]:
     if pid not in CHECKS:
         PENDING[pid] = "check under construction in this framework (designed in DESIGN.md section 5, not yet registered)"
